@@ -29,6 +29,8 @@ Init ==
   /\ (consumer = "noserde" => form # "cli")                                              \* CLI output names ::serde
   \* a consumer without serde cannot supply (de)serialisable extern enums
   /\ (consumer = "noserde" => o.extern_enums = "")
+  \* ... nor name serde's traits by a path through a crate it does not depend on
+  /\ (consumer = "noserde" => (o.response_derives # "Debug, serde::Serialize" /\ o.variables_derives # "serde::Deserialize, Debug"))
 Next == UNCHANGED vars
 Spec == Init /\ [][Next]_vars
 
